@@ -100,7 +100,7 @@ package trie
 // query primitives
 
 //@ func (*SlimTrie).getLabelIdxOfKey
-//@   property C01 C03 C10
+//@   property C01 C02 C03 C09 C10
 //@   opt conv=exact
 //@   requires qr != nil && keyBitIdx >= 0 && int(qr.keyBitLen) == 8*len(qr.key)
 //@   ensures result == labelidx(qr.key, int(qr.keyBitLen), int(qr.wordSize), int(keyBitIdx))
@@ -126,7 +126,7 @@ package trie
 //@ define tail_hi(st *SlimTrie, l int) = select1(st.inner.LeafPrefixes.PositionBM.Words, rank1(LPP(st), l) + 1)
 
 //@ func (*SlimTrie).getLeafPrefix
-//@   property C01 C03 C10
+//@   property C01 C02 C03 C09 C10
 //@   requires wf_core(st) && wf_tree(st) && wf_lprefix(st) && qr != nil
 //@   requires 0 <= nodeid && int(nodeid) < nN(st) && bitat(NTW(st), nodeid) == 0
 //@   modifies qr.ithLeaf, qr.hasLeafPrefix, qr.leafPrefix
@@ -158,7 +158,7 @@ package trie
 //@ define has_step(st *SlimTrie, t int) = st.inner.InnerPrefixes.EltCnt > 0 && bitat(st.inner.InnerPrefixes.PresenceBM.Words, t) == 1
 
 //@ func (*SlimTrie).getNode
-//@   property C01 C03 C10
+//@   property C01 C02 C03 C09 C10
 //@   requires wf_core(st) && wf_tree(st) && wf_iprefix(st) && wf_lprefix(st) && qr != nil
 //@   requires 0 <= nodeId && int(nodeId) < nN(st)
 //@   modifies *qr
@@ -546,3 +546,19 @@ func lemmaTypedGettersAgreeOnFound(st *SlimTrie, key string) (bool, bool, bool, 
 //@   property C05
 //@   requires 0 <= i && i < len(ss) && 0 <= j && j < len(ss)
 //@   ensures result == (ss[i].cnt > ss[j].cnt || (ss[i].cnt == ss[j].cnt && ss[i].bitmap17 > ss[j].bitmap17))
+
+// ---------------------------------------------------------------------------
+// legacy loader helpers (C06)
+
+//@ func bmhas
+//@   property C06
+//@   requires len(bm) <= 100000000
+//@   ensures result == (0 <= i && int(i)/64 < len(bm) && bitat(bm, i) == 1)
+
+//@ func getStepBefore000510
+//@   property C06
+//@   opt conv=exact
+//@   requires steps != nil && arr_ok(&steps.Base, 2) && 0 <= nid && len(steps.Bitmaps) <= 100000000
+//@   ensures !(int(nid)/64 < len(steps.Bitmaps) && bitat(steps.Bitmaps, nid) == 1) ==> result == 0
+//@   ensures int(nid)/64 < len(steps.Bitmaps) && bitat(steps.Bitmaps, nid) == 1 && le16(steps.Elts, 2*arr_pos(&steps.Base, int(nid))) != u16(0) ==>
+//@       int(result) == 4*(int(le16(steps.Elts, 2*arr_pos(&steps.Base, int(nid)))) - 1)
